@@ -183,21 +183,29 @@ def shard_planted_pipeline(sh, part):
     cr = pipe.fresh_core_ranking()
     r = sh.nprng('pp', part)
     n = 4000
-    for batch in range(3 if sh.tier == 'quick' else 8):
+    for batch in range(4 if sh.tier == 'quick' else 9):
         target = r.integers(0, 2, n)
         sig = np.where(r.random(n) < 0.15, 1 - target, target)
         cols = {'signal': sig, 'noise-5': r.integers(0, 5, n), 'noise-400': r.integers(0, 400, n), 'noise-id': r.permutation(n), 'const': np.zeros(n, dtype=int), 'label': target}
-        df = pd.DataFrame({k: ['v%d' % x for x in v] for k, v in cols.items()})
+        variant = ('strings', 'label-in-names', 'integers')[(batch + part) % 3]
+        if variant == 'label-in-names':
+            cols = {('label_' + k if k != 'label' else k): v for k, v in cols.items()}        # feature names containing the label name
+        if variant == 'integers':
+            # library use with integer columns: target in {-1, +1}, features with negative and very large codes
+            df = pd.DataFrame({k: (np.asarray(v).astype(np.int64) * 2 - 1 if k == 'label' else np.asarray(v).astype(np.int64) * 7 - 3 + (2 ** 31 if k == 'noise-5' else 0)) for k, v in cols.items()})
+        else:
+            df = pd.DataFrame({k: ['v%d' % x for x in v] for k, v in cols.items()})
+        sig_name = 'label_signal' if variant == 'label-in-names' else 'signal'
         args = pipe.make_args(heuristic='MI-numba-randomized', target_ranking_only='True', combination_number_upper_bound=10 ** 6)
         ok, out = sh.call('planted-ranking', 'mixed_rank_graph', cr.mixed_rank_graph, df, args, pipe.SyncPool(), pipe.NullPbar())
         if not ok:
             return
         scores = {a: float(s) for a, b, s in out.triplet_scores if b == 'label'}
-        codes = {k: np.array(pipe.codes_sorted(df[k].tolist()), dtype=np.int32) for k in cols}
+        codes = {k: np.array(pipe.codes_sorted(df[k].tolist()), dtype=np.int32) for k in cols}       # rank among sorted distinct values (numeric for integers)
         for k in cols:
             exp = oracles.corrected_model(codes[k], codes['label'])
             sh.check('corrected-model', oracles.close32(scores[k], exp), 'pipeline-score!=displaced-copy-model-on-this-batch',
                      lambda: {'batch': batch, 'feature': k, 'got': scores[k], 'model': exp, 'all_scores': scores})
-        best_noise = max(v for k, v in scores.items() if k not in ('signal', 'label'))
-        sh.check('planted-ranking', scores['signal'] > best_noise, 'noise-outranks-signal', lambda: {'batch': batch, 'scores': scores})
+        best_noise = max(v for k, v in scores.items() if k not in (sig_name, 'label'))
+        sh.check('planted-ranking', scores[sig_name] > best_noise, 'noise-outranks-signal', lambda: {'batch': batch, 'variant': variant, 'scores': scores})
         sh.case(('planted-pipeline', part, batch), True, 'planted-pipeline', sample={'batch': batch, 'scores': scores} if batch == 1 else None)
